@@ -7,6 +7,7 @@ package main
 
 import (
 	"context"
+	"errors"
 	"fmt"
 	"regexp"
 	"sort"
@@ -47,6 +48,11 @@ func admitsRef(debug bool, treat map[int]int, L, r int) bool {
 	}
 	return r <= L
 }
+
+// c01Broken is a destination that always fails.
+type c01Broken struct{}
+
+func (c01Broken) Write(p []byte) (int, error) { return 0, errors.New("c01: destination broken") }
 
 var reLevelField = regexp.MustCompile(`level="([^"]*)"`)
 
@@ -315,6 +321,32 @@ func runC01(r *run) {
 		r.emit("C01 setdebug 0", "ok")
 		product("debug-off-again", noDebug)
 		product("debug-on-again", levels)
+	}
+	// what the library itself says about a failing destination is a warning of that logger like any other: a logger whose
+	// level does not admit warnings says nothing
+	for _, format := range []string{"l", "j", "c"} {
+		for _, L := range []int{0, 1, 2, 3, 4, 7} {
+			errRec := &recorder{}
+			fl := slog.New(fmt.Sprintf("c01failing-%s-%d", format, L)).SetWriter(c01Broken{}).SetErrorWriter(errRec).SetLevel(slog.Level(L))
+			switch format {
+			case "j":
+				fl.SetJSONMode(true)
+			case "l":
+				fl.SetColorMode(false)
+			}
+			fl.Print("a record for a destination that fails") // Always severity: admitted unless the logger is Off
+			w := errRec.take()
+			want := 0
+			if admitsRef(false, treat, L, 3) && L != 7 {
+				want = 1
+			}
+			r.seen(fmt.Sprintf("failing-destination|%s|%d", format, L))
+			if len(w) != want {
+				r.violate(violation{What: "gating differs from the admission rule for the warning the library writes about a failing destination",
+					Input:    map[string]any{"logger_level": L, "format": format, "call": "Print(...) with a normal writer that returns an error; error writer healthy"},
+					Expected: map[string]any{"warning_records_on_the_error_writer": want}, Actual: map[string]any{"records": len(w), "first": fmt.Sprintf("%q", w)}})
+			}
+		}
 	}
 	r.extra["exhaustive"] = true
 	r.extra["loggers"] = 3
